@@ -666,4 +666,29 @@ theorem z_increasing (s : SP) (hpos : ∀ l ∈ s.layers, 0 < l.thickness) : s.z
     omega
 
 
+/-! ### the two definitions of the water content (wave 7: a conversion between the constructor's two arguments) -/
+
+/-- the two documented definitions of the water content describe the same layer: a layer given by `liquid_water = lw` has fractional
+    volume `f = fracVolumeLW …`; the volumetric water content of that layer is `lw * f`, and a layer given by *that* volumetric content
+    gets the same fractional volume and reports the same `liquid_water` (what a conversion between the two arguments has to respect). -/
+theorem water_definitions_agree (ρi ρw ρ lw : ℝ) (hD : ρi * (1 - lw) + ρw * lw ≠ 0) (hρi : ρi ≠ 0) (hρ : ρ ≠ 0) :
+    fracVolumesVLW ρi ρw ρ (lw * fracVolumeLW ρi ρw ρ lw) = (fracVolumeLW ρi ρw ρ lw, lw) := by
+  have hf : fracVolumeLW ρi ρw ρ lw ≠ 0 := by
+    simp only [fracVolumeLW]; exact div_ne_zero hρ hD
+  have h1 : (ρ - (ρw - ρi) * (lw * fracVolumeLW ρi ρw ρ lw)) / ρi = fracVolumeLW ρi ρw ρ lw := by
+    simp only [fracVolumeLW]
+    field_simp
+    ring
+  simp only [fracVolumesVLW]
+  rw [h1]
+  congr 1
+  field_simp
+
+/-- ... and the conversion `vlw = lw * ρ / ρi` (water over snow volume taken for water over ice volume) is not that one: a witness -/
+example : fracVolumesVLW (917 : ℝ) 1000 300 (0.1 * 300 / 917) ≠ (fracVolumeLW 917 1000 300 0.1, 0.1) := by
+  intro h
+  have := congrArg Prod.fst h
+  simp only [fracVolumesVLW, fracVolumeLW] at this
+  norm_num at this
+
 end Smrt.Props.C16
